@@ -163,6 +163,22 @@ fn sleeping_in(tid: i64, calls: &[i64], allow_d: bool) -> bool {
     true
 }
 
+/// the thread waits for a FUSE answer (or for INIT) inside the kernel, on three samples in a row. Sleeping anywhere
+/// else in the kernel (e.g. the teardown of a superblock at the end of the system call) is not "blocked".
+fn waiting_for_fuse(tid: i64) -> bool {
+    for i in 0..3 {
+        let (s, _) = thread_state(tid);
+        let wchan = std::fs::read_to_string(format!("/proc/self/task/{tid}/wchan")).unwrap_or_default();
+        if !((s == 'S' || s == 'D') && (wchan.contains("fuse_get_req") || wchan.contains("request_wait_answer"))) {
+            return false;
+        }
+        if i < 2 {
+            std::thread::sleep(Duration::from_millis(8));
+        }
+    }
+    true
+}
+
 #[derive(Default, Clone, Copy, PartialEq, Debug)]
 struct FdCount {
     fuse: i64,
@@ -329,6 +345,7 @@ fn err_class(msg: &str) -> &'static str {
         ("fuse session failure: invalid mountpoint", "invalid-mountpoint"),
         ("fuse session failure: failed to umount", "umount-failed"),
         ("fuse session failure: failed to mount", "mount-failed"),
+        ("fuse session failure: stat ", "stat-mountpoint"),
         ("fuse session failure: read new request: ECONNABORTED", "read-ECONNABORTED"),
         ("fuse session failure: read new request", "read-failed"),
         ("fuse session failure: epoll wait", "epoll-failed"),
@@ -413,6 +430,77 @@ fn serve_one(ch: &mut FuseChannel, server: &Server<Arc<TinyFs>>, mut on_some: im
 }
 
 // ------------------------------------------------------------------------------------------------
+// hang watchdog for calls made on the main thread: a call into the library that is still asleep in the kernel
+// after the grace period is released by aborting every fuse connection below the work directory; the fact is logged
+// with the call ("hung": true) and judged by TLC.
+
+static OP_START_MS: AtomicU64 = AtomicU64::new(0); // 0 = no library call in progress
+static OP_HUNG: AtomicBool = AtomicBool::new(false);
+static WORKER_TIDS: Mutex<Vec<i64>> = Mutex::new(Vec::new());
+static CONN_MINORS: Mutex<Vec<u32>> = Mutex::new(Vec::new());
+
+fn now_ms() -> u64 {
+    static T0: Mutex<Option<Instant>> = Mutex::new(None);
+    let mut g = T0.lock().unwrap();
+    let t0 = *g.get_or_insert_with(Instant::now);
+    t0.elapsed().as_millis() as u64 + 1
+}
+
+fn start_hang_watchdog(dir: PathBuf, main_tid: i64, grace_ms: u64) {
+    std::thread::spawn(move || loop {
+        std::thread::sleep(Duration::from_millis(50));
+        let st = OP_START_MS.load(Ordering::SeqCst);
+        if st == 0 || now_ms() < st + grace_ms {
+            continue;
+        }
+        // a deadlock, not a slow machine: on three samples the calling thread sleeps in a FUSE wait of the kernel
+        // (fuse_get_req: connection not initialised; request_wait_answer: no answer yet) and every channel thread
+        // is asleep too (idle or inside epoll_wait), so nobody is going to answer
+        let mut asleep = true;
+        for _ in 0..3 {
+            let (s, _) = thread_state(main_tid);
+            let wchan = std::fs::read_to_string(format!("/proc/self/task/{main_tid}/wchan")).unwrap_or_default();
+            let in_fuse = wchan.contains("fuse") || wchan.contains("request_wait_answer");
+            let workers: Vec<i64> = WORKER_TIDS.lock().map(|g| g.clone()).unwrap_or_default();
+            let others_asleep = workers.iter().all(|t| {
+                let (ws, _) = thread_state(*t);
+                ws == 'S' || ws == '?'
+            });
+            if !((s == 'S' || s == 'D') && in_fuse && others_asleep) {
+                asleep = false;
+                break;
+            }
+            std::thread::sleep(Duration::from_millis(10));
+        }
+        if asleep && OP_START_MS.load(Ordering::SeqCst) == st {
+            OP_HUNG.store(true, Ordering::SeqCst);
+            // every connection of the running history (also lazily detached ones), then whatever is mounted
+            for m in CONN_MINORS.lock().map(|g| g.clone()).unwrap_or_default() {
+                abort_conn(m);
+            }
+            for m in mounts_at(&dir, true) {
+                if m.1.starts_with("fuse") && m.1 != "fusectl" {
+                    abort_conn(m.2);
+                }
+            }
+            // wait for the call to come back before looking again
+            let t0 = Instant::now();
+            while OP_START_MS.load(Ordering::SeqCst) == st && t0.elapsed() < Duration::from_secs(30) {
+                std::thread::sleep(Duration::from_millis(20));
+            }
+        }
+    });
+}
+
+/// run a call into the library under the hang watchdog
+fn guarded<T>(f: impl FnOnce() -> T) -> T {
+    OP_START_MS.store(now_ms(), Ordering::SeqCst);
+    let r = f();
+    OP_START_MS.store(0, Ordering::SeqCst);
+    r
+}
+
+// ------------------------------------------------------------------------------------------------
 // sequential histories
 
 enum Cmd {
@@ -450,6 +538,7 @@ fn spawn_worker(ch: FuseChannel, server: Arc<Server<Arc<TinyFs>>>) -> Worker {
         rtx.send(json!({"dropped": true})).ok();
     });
     let tid = trx.recv().unwrap_or(0);
+    WORKER_TIDS.lock().unwrap().push(tid);
     Worker { tx, rx, tid, busy: false, join: Some(join) }
 }
 
@@ -457,8 +546,6 @@ struct Client {
     rx: Receiver<Value>,
     tid: i64,
 }
-
-const SYS_STATFS: [i64; 2] = [137, 138];
 
 fn spawn_client(mp: PathBuf) -> Client {
     let (rtx, rx) = channel::<Value>();
@@ -480,7 +567,6 @@ fn spawn_client(mp: PathBuf) -> Client {
 }
 
 struct SeqWorld {
-    dir: PathBuf,
     mp: PathBuf,
     server: Arc<Server<Arc<TinyFs>>>,
     ses: Option<FuseSession>,
@@ -519,7 +605,7 @@ impl SeqWorld {
                         self.client = None;
                     }
                     Err(TryRecvError::Empty) => {
-                        if !sleeping_in(cl.tid, &SYS_STATFS, true) {
+                        if !waiting_for_fuse(cl.tid) {
                             unsettled = true;
                         }
                     }
@@ -549,6 +635,18 @@ impl SeqWorld {
                 }
             }
             if !unsettled {
+                // the completions of one settling period are concurrent; they are logged in a canonical order:
+                // requests handed out, then the client's result, then channels that returned None
+                let key = |d: &Value| -> i32 {
+                    if d["what"] == "gr" && d["res"] == "some" {
+                        0
+                    } else if d["what"] == "cli" {
+                        1
+                    } else {
+                        2
+                    }
+                };
+                done.sort_by_key(key);
                 return done;
             }
             if t0.elapsed() > Duration::from_secs(20) {
@@ -583,6 +681,8 @@ impl SeqWorld {
             let _ = cl.rx.recv_timeout(Duration::from_secs(5));
         }
         self.conns.clear();
+        WORKER_TIDS.lock().unwrap().clear();
+        CONN_MINORS.lock().unwrap().clear();
         if !mounts_at(&self.mp, true).is_empty() {
             env_fail("a mount could not be removed after a history");
         }
@@ -597,8 +697,8 @@ fn run_seq(hist_file: &str, trace_file: &str, dir: &Path) {
     let fs = Arc::new(TinyFs { delay_us: AtomicU64::new(0) });
     let mut tr = Trace::create(trace_file);
     let txt = std::fs::read_to_string(hist_file).expect("history file");
+    start_hang_watchdog(dir.to_path_buf(), gettid(), vharness::util::env_u64("SESSION_HANG_MS", 300));
     let mut w = SeqWorld {
-        dir: dir.to_path_buf(),
         mp: mp.clone(),
         server: Arc::new(Server::new(fs.clone())),
         ses: None,
@@ -620,10 +720,7 @@ fn run_seq(hist_file: &str, trace_file: &str, dir: &Path) {
         for (i, op) in ops.iter().enumerate() {
             let name = op["op"].as_str().unwrap_or("");
             let c = op["c"].as_i64().unwrap_or(0);
-            let mut ev = json!({"e": "op", "i": i + 1, "op": name});
-            if c != 0 {
-                ev["c"] = json!(c);
-            }
+            let mut ev = json!({"e": "op", "i": i + 1, "op": name, "c": c});
             let res: Value = match name {
                 "new" => {
                     let kind = op["kind"].as_str().unwrap_or("dir");
@@ -633,7 +730,7 @@ fn run_seq(hist_file: &str, trace_file: &str, dir: &Path) {
                         "file" => notdir.clone(),
                         _ => dir.join("does-not-exist"),
                     };
-                    match catch_unwind(AssertUnwindSafe(|| FuseSession::new(&p, "x03", "", false))) {
+                    match guarded(|| catch_unwind(AssertUnwindSafe(|| FuseSession::new(&p, "x03", "", false)))) {
                         Ok(Ok(s)) => {
                             w.ses = Some(s);
                             json!({"res": "ok"})
@@ -647,11 +744,12 @@ fn run_seq(hist_file: &str, trace_file: &str, dir: &Path) {
                 }
                 "mount" => {
                     let s = w.ses.as_mut().expect("model: session exists");
-                    let r = res_unit(catch_unwind(AssertUnwindSafe(|| s.mount())));
+                    let r = res_unit(guarded(|| catch_unwind(AssertUnwindSafe(|| s.mount()))));
                     if r["res"] == "ok" {
                         // the connection id is the minor of the top-most mount
                         if let Some(m) = mounts_at(&mp, false).last() {
                             w.conns.push(m.2);
+                            CONN_MINORS.lock().unwrap().push(m.2);
                         }
                     } else if r["cls"] == "open-dev-fuse" || r["cls"] == "mount-failed" {
                         env_fail(&format!("mount failed: {}", r["msg"]));
@@ -660,11 +758,11 @@ fn run_seq(hist_file: &str, trace_file: &str, dir: &Path) {
                 }
                 "umount" => {
                     let s = w.ses.as_mut().expect("model: session exists");
-                    res_unit(catch_unwind(AssertUnwindSafe(|| s.umount())))
+                    res_unit(guarded(|| catch_unwind(AssertUnwindSafe(|| s.umount()))))
                 }
                 "wake" => {
                     let s = w.ses.as_ref().expect("model: session exists");
-                    res_unit(catch_unwind(AssertUnwindSafe(|| s.wake())))
+                    res_unit(guarded(|| catch_unwind(AssertUnwindSafe(|| s.wake()))))
                 }
                 "bufsize" => {
                     let s = w.ses.as_ref().expect("model: session exists");
@@ -700,7 +798,7 @@ fn run_seq(hist_file: &str, trace_file: &str, dir: &Path) {
                 }
                 "nc" => {
                     let s = w.ses.as_ref().expect("model: session exists");
-                    match catch_unwind(AssertUnwindSafe(|| s.new_channel())) {
+                    match guarded(|| catch_unwind(AssertUnwindSafe(|| s.new_channel()))) {
                         Ok(Ok(ch)) => {
                             let wk = spawn_worker(ch, w.server.clone());
                             w.workers.insert(c, wk);
@@ -730,7 +828,7 @@ fn run_seq(hist_file: &str, trace_file: &str, dir: &Path) {
                 }
                 "clone" => {
                     let s = w.ses.as_ref().expect("model: session exists");
-                    match catch_unwind(AssertUnwindSafe(|| s.clone_fuse_file())) {
+                    match guarded(|| catch_unwind(AssertUnwindSafe(|| s.clone_fuse_file()))) {
                         Ok(Ok(f)) => {
                             w.clone = Some(f);
                             json!({"res": "ok"})
@@ -745,7 +843,7 @@ fn run_seq(hist_file: &str, trace_file: &str, dir: &Path) {
                 "setf" => {
                     let s = w.ses.as_mut().expect("model: session exists");
                     let f = w.clone.take().expect("model: clone exists");
-                    match catch_unwind(AssertUnwindSafe(|| s.set_fuse_file(f))) {
+                    match guarded(|| catch_unwind(AssertUnwindSafe(|| s.set_fuse_file(f)))) {
                         Ok(()) => json!({"res": "ok"}),
                         Err(_) => json!({"res": "panic"}),
                     }
@@ -756,7 +854,7 @@ fn run_seq(hist_file: &str, trace_file: &str, dir: &Path) {
                 }
                 "drop" => {
                     let s = w.ses.take().expect("model: session exists");
-                    match catch_unwind(AssertUnwindSafe(move || drop(s))) {
+                    match guarded(|| catch_unwind(AssertUnwindSafe(move || drop(s)))) {
                         Ok(()) => json!({"res": "ok"}),
                         Err(_) => json!({"res": "panic"}),
                     }
@@ -775,30 +873,18 @@ fn run_seq(hist_file: &str, trace_file: &str, dir: &Path) {
                 }
                 other => panic!("unknown op {other}"),
             };
-            let done = w.settle();
-            let mut ev = merge(ev, res);
-            // a get_request / client call that completed at once is reported in the op event itself
-            let mut rest = Vec::new();
-            for d in done {
-                if (name == "gr" && d["what"] == "gr" && d["c"] == json!(c) && ev["res"] == "started")
-                    || (name == "cli" && d["what"] == "cli" && ev["res"] == "started")
-                {
-                    let mut d2 = d.clone();
-                    d2.as_object_mut().unwrap().remove("e");
-                    d2.as_object_mut().unwrap().remove("what");
-                    d2.as_object_mut().unwrap().remove("c");
-                    ev = merge(ev, d2);
-                } else {
-                    rest.push(d);
-                }
-            }
-            if ev["res"] == "started" {
-                ev["res"] = json!("blocked");
-            }
-            ev["st"] = w.state();
+            let hung = OP_HUNG.swap(false, Ordering::SeqCst);
+            let nmount = mounts_at(&mp, false).len();
+            let mut ev = merge(json!({"c": 0, "k": 0, "kind": "", "cls": "", "n": 0}), merge(ev, res));
+            ev["hung"] = json!(hung);
+            ev["nmount"] = json!(nmount);
             tr.emit(&ev);
-            for d in rest {
-                tr.emit(&d);
+            for d in w.settle() {
+                tr.emit(&merge(json!({"c": 0, "cls": "", "opc": 0, "unique": "", "len": 0, "hlen": 0, "hm": "", "errno": 0}), d));
+            }
+            tr.emit(&merge(json!({"e": "st"}), w.state()));
+            if std::env::var("SESSION_FLUSH").is_ok() {
+                tr.flush();
             }
         }
         w.finish();
